@@ -188,3 +188,9 @@ def r5(c):
     c.ob('starts-at-zero', q.const_val(d, n.args[0]) == 0, 'a new loop starts at transaction id 0', '', loc_of(d))
     a = P.adt('rodbus::common::frame::TxId')
     c.ob('private', all(f['vis'] != 'Public' and f['ty'] == 'u16' for v in a['variants'] for f in v['fields']), 'the counter is a private u16', '')
+
+
+@rule('C11', 'R11.6', 'a late or unsolicited reply is consumed whole and discarded: the reader (buffer + parser) is never reset in the middle of a session (C05/R05.7)')
+def r6(c):
+    from rules import c05
+    c05.r7(c)
